@@ -5,7 +5,7 @@ FIELDS = ['dop', 'ibgp', 'local_asn', 'bgp_id', 'peer', 'origin', 'path', 'local
           'originator', 'cluster_len', 'rest']
 
 LATTICE = {
-    'dop': [None, 100, 200],
+    'dop': [None, 0, 100, 200],                      # an explicit degree of preference of 0 is not the same content as none
     'ibgp': [0, 1],
     'local_asn': [100],
     'bgp_id': [1, 2, 0x01000002, 0x02000001],          # multi-octet identifiers: the octets order as a big-endian number
